@@ -25,6 +25,16 @@ const (
 //TXTConfigSpace holds the TXT config space
 type TXTConfigSpace []byte
 
+// from returns the part of the config space image that starts at the given
+// register offset. It is empty if the image ends before the offset, so that
+// reading the register fails with io.EOF instead of a slice bounds panic.
+func (data TXTConfigSpace) from(offset int) []byte {
+	if offset > len(data) {
+		return nil
+	}
+	return data[offset:]
+}
+
 //PhysicalMemoryReader accesses device physical memory
 type PhysicalMemoryReader interface {
 	ReadPhysBuf(addr int64, buf []byte) error
